@@ -48,11 +48,16 @@ MC_SEQ = [_mc("MCDLL", "MCDLL", "doubly linked list cell model, length <= 4: NoP
           _mc("MCArrayList", "MCArrayList", "array list (elements, cap) model, length <= 5: CapInv; Refines AbsSeq"),
           _mc("MCSLL", "MCSLL", "singly linked list cell model, length <= 4: NoPanic, WF (size, last); Refines AbsSeq")]
 MC_RING = [_mc("MCRing", "MCRing%d" % c, "ring model capacity %d: IndexInv, FullIffSizeCap, SizeAgrees; Refines bounded FIFO" % c) for c in (1, 2, 3, 4)]
+MC_SQ = [_mc("MCStackQueue", "MCStackQueue_" + k, "%s as a delegation layer over the abstract list: Refines LIFO/FIFO" % k)
+         for k in ("arraystack", "linkedliststack", "arrayqueue", "linkedlistqueue")]
 MC_HEAP = [_mc("MCHeap", "MCHeap_" + c, "heap array model, 6 items, comparator %s: HeapOrdered; Refines AbsHeap (Pop is a minimum, bag exact)" % c)
            for c in ("prio", "maxprio", "prioid")]
 MC_ITER = [_mc("RBTIter", "MCRBTIter", "red-black iterator over all 6-key trees: CursorInv (refines AbsCursor incl. NextTo/PrevTo)"),
            _mc("BTIter", "MCBTIter3", "B-tree iterator, order 3, 7 keys: CursorInv"), _mc("BTIter", "MCBTIter4", "B-tree iterator, order 4, 7 keys: CursorInv"),
-           _mc("IdxIter", "MCIdxIter", "index iterator over all sequences of length <= 4: CursorInv with NextTo/PrevTo")]
+           _mc("IdxIter", "MCIdxIter", "index iterator over all sequences of length <= 4: CursorInv with NextTo/PrevTo"),
+           _mc("DLLIter", "MCDLLIter", "doubly linked list iterator (index + element pointer, re-anchoring on first/last) over all cell-level lists of length <= 3: CursorInv, NoIterPanic"),
+           _mc("TreeSetIter", "MCTreeSetIter", "TreeSet iterator (index alongside the red-black iterator), 5 keys: InStep"),
+           _mc("AVLIter", "MCAVLIter", "AVL iterator (Node.Next/Prev = walk1) over all 6-key trees: CursorInv")]
 MC_JSON = [_mc("MCJSON", "MCJSON_" + d, "abstract loads, discipline %s: Sound, NoSurvivor, RoundTrip" % d)
            for d in ("seq", "ring", "stack", "heap", "unordered", "linkedset", "sortedset", "unorderedmap", "sortedmap", "linkedmap", "unorderedbidi", "sortedbidi")]
 MC_ALG = [_mc("MCAlg", "MCAlg", "set algebra loops for all 256 pairs of subsets of a 4-element universe + aliased operands: Exact, OperandsUnchanged")]
@@ -135,7 +140,7 @@ PLAN = {
                 trusted=["Go race detector (happens-before based)", "deep reflection fingerprint of the container"]),
     "C05": dict(level="model_checking", design="6 C05",
                 traces=[dict(job="que", spec="TraceQue")],
-                mc=MC_RING),
+                mc=MC_RING + MC_SQ),
 }
 
 
